@@ -2664,14 +2664,20 @@ def _one_info_keyword_arg(self: fst.FST, static: onestatic, idx: int | None, fie
 
 def _one_info_alias_asname(self: fst.FST, static: onestatic, idx: int | None, field: str) -> oneinfo:
     ast = self.a
+    lines = self.root._lines
     ln, col, end_ln, end_col = self.loc
-    loc_insdel = fstloc(ln, col + len(ast.name), end_ln, end_col)
+
+    if (name := ast.name) == '*':
+        col += 1
+    else:
+        _, _, ln, col = _loc_identifier_dotted(lines, ln, col, end_ln, end_col, name)  # end of name, the 'as' has to be searched for from here because the name can contain these letters 'basic as ic' and the parts of a dotted name can be separated by whitespace
+
+    loc_insdel = fstloc(ln, col, end_ln, end_col)
 
     if (asname := ast.asname) is None:
         loc_prim = None
 
     else:
-        lines = self.root._lines
         ln, col = next_find(lines, ln, col, end_ln, end_col, 'as')  # skip the 'as'
         ln, col = next_find(lines, ln, col + 2, end_ln, end_col, asname)  # must be there
         loc_prim = fstloc(ln, col, ln, col + len(asname))
